@@ -106,16 +106,20 @@ def run(tier, lab):
                   workers=4, want_scn=False)
     if rl2.violated is None:
         raise lib.Infra("deviation returns_on_first_eof does not violate Arrives in the model")
+    rl3 = lib.tlc("MC_Proxy", cfg="MC_ProxyLive.cfg", timeout=300, constants={"Devs": '{"stderr_not_relayed"}', "NEx": "40"}, tlc_seed=lib.seed(),
+                  workers=4, want_scn=False)
+    if rl3.violated is None:
+        raise lib.Infra("deviation stderr_not_relayed does not violate Arrives in the model")
     for dev in ("adds_header", "does_nothing"):
         rd = lib.tlc("MC_Proxy", timeout=300, constants={"Devs": '{"%s"}' % dev, "NEx": "60"}, tlc_seed=lib.seed(), workers=4, want_scn=False)
         if dev == "adds_header" and rd.violated != "Inv":
             raise lib.Infra("deviation adds_header does not violate BackendSawExactlyClientSent in the model")
     exs = [dict(e, id=i) for i, e in enumerate({json.dumps(s, sort_keys=True): s for s in r.scn}.values())]
     # ssh: the backend's reply has two streams (standard output and, as extended data of the same channel, standard error); each
-    # is a FIFO leg of Proxy.tla of its own - half of the ssh exchanges also carry 1 / 700 / 40000 bytes of standard error
+    # is a FIFO leg of Proxy.tla of its own
+    # (Proxy.tla's ErrOut, drawn by MC_Proxy as a list of piece sizes; the fixture writes them as one piece)
     for e in exs:
-        if e["kind"] == "ssh":
-            e["stderr"] = [0, 1, 0, 700, 0, 40000][e["id"] % 6]
+        e["stderr"] = sum(e.get("stderr") or []) if e["kind"] == "ssh" else 0
     results = {x["id"]: x for x in lib.run_sharded(lab, "c15", exs, shards=min(lib.NCPU, 8), timeout=1800)}
     kinds = {}
     for ex in exs:
